@@ -300,8 +300,33 @@ theorem cIterAdvance_spec {d : DFA σ α} {key : α → Int} (fuel : Nat) :
         rw [cacheWords_populateWord h.words]
         exact ih (i + 1) limit (d.wordsOfLength key i) hinv
 
+theorem cSuccStart_spec {d : DFA σ α} {key : α → Int} {s : Inst σ α} (h : d.CacheInv key s)
+    (reverse : Bool) :
+    d.CacheInv key (d.cSuccStart s reverse).1 ∧ (d.cSuccStart s reverse).1.gens = s.gens ∧
+      (d.cSuccStart s reverse).2 = (d.finiteGuard reverse, d.digraph) := by
+  cases reverse with
+  | false =>
+    have h2 := cDigraph_spec h
+    unfold cSuccStart finiteGuard
+    simp only
+    exact ⟨h2.inv, h2.gens, by rw [h2.val]⟩
+  | true =>
+    have h1 := cIsFinite_spec h
+    unfold cSuccStart finiteGuard
+    simp only
+    rw [h1.val]
+    cases hf : d.isFinite with
+    | error e => exact ⟨h1.inv, h1.gens, rfl⟩
+    | ok b =>
+      cases b with
+      | false => exact ⟨h1.inv, h1.gens, rfl⟩
+      | true =>
+        have h2 := cDigraph_spec h1.inv
+        simp only
+        exact ⟨h2.inv, h2.gens.trans h1.gens, by rw [h2.val]⟩
+
 theorem cGenNext_spec {d : DFA σ α} {key : α → Int} {s : Inst σ α} (h : d.CacheInv key s) (fuel : Nat)
-    (g : Gen α) :
+    (g : Gen σ α) :
     d.CacheInv key (d.cGenNext key s fuel g).1 ∧ (d.cGenNext key s fuel g).1.gens = s.gens ∧
       (d.cGenNext key s fuel g).2 = d.pGenNext key fuel g := by
   cases g with
@@ -341,32 +366,17 @@ theorem cGenNext_spec {d : DFA σ α} {key : α → Int} {s : Inst σ α} (h : d
           have h4 := cIterAdvance_spec (d := d) (key := key) fuel i limit [] h3.inv
           exact ⟨h4.1, h4.2.1.trans (h3.gens.trans (h2.gens.trans h1.gens)), h4.2.2⟩
   | iterRun i limit rest => exact cIterAdvance_spec fuel i limit rest h
+  | succNew skey input o =>
+    have h1 := cSuccStart_spec h o.reverse
+    unfold cGenNext pGenNext
+    simp only
+    rw [h1.2.2]
+    cases d.succSetup (d.finiteGuard o.reverse) d.digraph skey input o with
+    | error e => exact ⟨h1.1, h1.2.1, rfl⟩
+    | ok cs => exact ⟨h1.1, h1.2.1, rfl⟩
+  | succRun o c st => exact ⟨h, rfl, rfl⟩
+  | raising e => exact ⟨h, rfl, rfl⟩
   | done => exact ⟨h, rfl, rfl⟩
-
-theorem cSuccStart_spec {d : DFA σ α} {key : α → Int} {s : Inst σ α} (h : d.CacheInv key s)
-    (reverse : Bool) :
-    d.CacheInv key (d.cSuccStart s reverse).1 ∧ (d.cSuccStart s reverse).1.gens = s.gens ∧
-      (d.cSuccStart s reverse).2 = (d.finiteGuard reverse, d.digraph) := by
-  cases reverse with
-  | false =>
-    have h2 := cDigraph_spec h
-    unfold cSuccStart finiteGuard
-    simp only
-    exact ⟨h2.inv, h2.gens, by rw [h2.val]⟩
-  | true =>
-    have h1 := cIsFinite_spec h
-    unfold cSuccStart finiteGuard
-    simp only
-    rw [h1.val]
-    cases hf : d.isFinite with
-    | error e => exact ⟨h1.inv, h1.gens, rfl⟩
-    | ok b =>
-      cases b with
-      | false => exact ⟨h1.inv, h1.gens, rfl⟩
-      | true =>
-        have h2 := cDigraph_spec h1.inv
-        simp only
-        exact ⟨h2.inv, h2.gens.trans h1.gens, by rw [h2.val]⟩
 
 /-! ### `random_word` reads only the levels `≤ k` -/
 
@@ -398,7 +408,7 @@ theorem randomWordCore_congr (d : DFA σ α) {c1 c2 : Nat → σ → Nat} (k : N
 
 /-- Simulation step: from a coherent instance every public call keeps the instance coherent
 and returns exactly what the stateless reference returns (answer and generator positions). -/
-theorem step_sim {d : DFA σ α} {key : α → Int} (ext : Nat → Nat) {s : Inst σ α}
+theorem step_sim {d : DFA σ α} {key : α → Int} (ext : Ext σ) {s : Inst σ α}
     (h : d.CacheInv key s) (q : Query α) :
     d.CacheInv key (d.step key ext s q).1 ∧
       d.stepPure key ext s.gens q = ((d.step key ext s q).1.gens, (d.step key ext s q).2) := by
@@ -457,8 +467,20 @@ theorem step_sim {d : DFA σ α} {key : α → Int} (ext : Nat → Nat) {s : Ins
     have h1 := cSuccStart_spec h o.reverse
     refine ⟨h1.1, ?_⟩
     simp only [step, stepPure, h1.2.1, h1.2.2, successors]
+  | succOpen skey input o => exact ⟨⟨h.counts, h.words, h.memo⟩, rfl⟩
   | clearCache =>
     exact ⟨⟨by simp [step, CoherentCount], by simp [step, CoherentWord], h.memo⟩, rfl⟩
+  | minify tag =>
+    cases hp : d.allowPartial with
+    | false => simp only [step, stepPure, hp]; exact ⟨h, trivial⟩
+    | true =>
+      have h1 := cDigraph_spec h
+      simp only [step, stepPure, hp]
+      exact ⟨h1.inv, by rw [h1.gens, h1.val]⟩
+  | toPartial tag =>
+    have h1 := cDigraph_spec h
+    simp only [step, stepPure]
+    exact ⟨h1.inv, by rw [h1.gens, h1.val]⟩
   | other tag => exact ⟨h, rfl⟩
 
 end DFA
